@@ -10,6 +10,7 @@ CONSTANTS
   DotAll = TRUE
   FindFirst = FALSE
   Emit = "lts"
+  BlockLen = 0
   LookupMemo = FALSE
   NParas = 3
   FPool <- MCFPoolE
